@@ -90,19 +90,67 @@ def _prepared(m: pf.Module) -> pf.Module:
     Whatever the inliner cannot expand stays a call (the rules then decline or see nothing, as before)."""
     from engines import inline as inl
     m2 = m
+    fam = tuple(_family(m))
+    mod_funcs = {st.name for st in m.tree.body if isinstance(st, (ast.FunctionDef, ast.AsyncFunctionDef))} - set(fam)
+
+    def calls_helper(fn: pf.FuncDef, cls: Optional[ast.ClassDef]) -> bool:
+        if cls is not None:
+            names = {f.name for f in cls.body if isinstance(f, (ast.FunctionDef, ast.AsyncFunctionDef))} - set(ANALYSED_METHODS)
+            recv = fn.args.args[0].arg if fn.args.args else 'self'
+            return any(isinstance(c, ast.Call) and isinstance(c.func, ast.Attribute) and isinstance(c.func.value, ast.Name) and c.func.value.id == recv and c.func.attr in names
+                       for c in ast.walk(fn))
+        return any(isinstance(c, ast.Call) and isinstance(c.func, ast.Name) and c.func.id in mod_funcs for c in ast.walk(fn))
     try:
-        for meth in ('__aexit__', 'wait', 'call', '_shutdown'):
-            m2, _ = inl.inline_methods(m2, OBG, meth, exclude=ANALYSED_METHODS)
-        for meth in ('__aenter__', '__aexit__'):
-            m2, _ = inl.inline_methods(m2, WS, meth, exclude=ANALYSED_METHODS)
-        fam = tuple(_family(m))
+        for cname, meths in ((OBG, ('__aexit__', 'wait', 'call', '_shutdown')), (WS, ('__aenter__', '__aexit__'))):
+            for meth in meths:
+                if calls_helper(af.method(m2, m2.cls(cname), meth), m2.cls(cname)):
+                    m2, _ = inl.inline_methods(m2, cname, meth, exclude=ANALYSED_METHODS)
         for fn in (GR, GE):
-            m2, _ = inl.inline_functions(m2, fn, exclude=fam)
+            if calls_helper(m2.func(fn), None):
+                m2, _ = inl.inline_functions(m2, fn, exclude=fam)
     except AnalysisError:
         raise
     except Exception as e:  # the inliner met something it was not written for: analyse the module as it is
         raise AnalysisError(f'helper inlining failed ({type(e).__name__}: {e})')
     return m2
+
+
+_obg_cache: Dict[int, Dict[str, str]] = {}
+
+
+def _obg_attrs(ctx: Ctx, m: pf.Module) -> Dict[str, str]:
+    """The private attributes of OnlineBoundedGather2 by ROLE (read off __init__), as source texts: the semaphore (bound to the constructor
+    parameter), the done-event (`asyncio.Event()`), the table of pending tasks (an empty dict) and the stored first exception (None)."""
+    if id(m) in _obg_cache:
+        return _obg_cache[id(m)]
+    cls = m.cls(OBG)
+    init = af.method(m, cls, '__init__')
+    ctx.need(len(init.args.args) >= 2, f'{OBG}.__init__: no semaphore parameter')
+    me, semp = init.args.args[0].arg, init.args.args[1].arg
+    roles: Dict[str, List[str]] = {'sema': [], 'event': [], 'pending': [], 'exc': []}
+    for st in af.body_no_doc(init):
+        if isinstance(st, ast.Assign) and len(st.targets) == 1:
+            t, v = st.targets[0], st.value
+        elif isinstance(st, ast.AnnAssign) and st.value is not None:
+            t, v = st.target, st.value
+        else:
+            continue
+        if not (isinstance(t, ast.Attribute) and isinstance(t.value, ast.Name) and t.value.id == me):
+            continue
+        src = f'self.{t.attr}'
+        if isinstance(v, ast.Name) and v.id == semp:
+            roles['sema'].append(src)
+        elif isinstance(v, ast.Call) and pf.dotted(v.func) in ('asyncio.Event', 'Event'):
+            roles['event'].append(src)
+        elif (isinstance(v, ast.Dict) and not v.keys) or (isinstance(v, ast.Call) and pf.dotted(v.func) == 'dict' and not v.args and not v.keywords):
+            roles['pending'].append(src)
+        elif isinstance(v, ast.Constant) and v.value is None:
+            roles['exc'].append(src)
+    ctx.need(me == 'self' and all(len(v) == 1 for k, v in roles.items() if k != 'event') and len(roles['event']) <= 1,
+             f'{OBG}.__init__: the attributes holding the semaphore / done-event / pending table / first exception are not recognised ({ {k: v for k, v in roles.items() if len(v) != 1} })')
+    out = {k: (v[0] if v else None) for k, v in roles.items()}  # no asyncio.Event at all: the rules about the event are not applicable (see R5)
+    _obg_cache[id(m)] = out
+    return out
 
 
 def _res(fn: Optional[pf.FuncDef], e: ast.AST) -> ast.AST:
@@ -253,13 +301,45 @@ def _manual(fn: pf.FuncDef, sema_aliases, attr: str) -> List[ast.Call]:
     return [c for c in ast.walk(fn) if isinstance(c, ast.Call) and isinstance(c.func, ast.Attribute) and c.func.attr == attr and sema_aliases(c.func.value)]
 
 
+def _manual_hold(m: pf.Module, host: pf.FuncDef, c: ast.AST, is_sema) -> Tuple[Optional[str], int]:
+    """The acquire / try / finally-release protocol written out by hand around the call `c`:
+         'held'   await s.acquire() is a statement ahead of the `try` (same block), the `finally` of that try releases, `c` is in its body
+         'leaky'  the acquire is INSIDE the body of the try whose finally releases (the release also runs when the acquire never completed)
+         None     anything else."""
+    par = m.parents()
+
+    def is_call(st: ast.AST, attr: str, awaited: bool) -> bool:
+        v = st.value if isinstance(st, ast.Expr) else None
+        if awaited:
+            v = v.value if isinstance(v, ast.Await) else None
+        return isinstance(v, ast.Call) and isinstance(v.func, ast.Attribute) and v.func.attr == attr and is_sema(v.func.value)
+    cur: ast.AST = c
+    while cur is not host:
+        p = par[cur]
+        if isinstance(p, ast.Try) and any(cur is s for s in p.body) and any(is_call(s, 'release', False) for s in p.finalbody):
+            inside = [s for s in p.body if is_call(s, 'acquire', True)]
+            if inside:
+                return 'leaky', inside[0].lineno
+            block = next((getattr(par[p], f) for f in ('body', 'orelse', 'finalbody') if isinstance(getattr(par[p], f, None), list) and any(x is p for x in getattr(par[p], f))), None)
+            if block is not None:
+                i = next(k for k, x in enumerate(block) if x is p)
+                ahead = [s for s in block[:i] if is_call(s, 'acquire', True)]
+                between_ok = i >= 1 and is_call(block[i - 1], 'acquire', True)
+                if len(ahead) == 1 and between_ok:
+                    return 'held', p.lineno
+            return None, p.lineno
+        cur = p
+    return None, getattr(c, 'lineno', 0)
+
+
 # ------------------------------------------------------------------------------------------------
 # R1
 # ------------------------------------------------------------------------------------------------
 
 
 def _r1(ctx: Ctx, m: pf.Module) -> None:
-    targets = [(GR, m.func(GR), None), (GE, m.func(GE), None), (f'{OBG}.call', m.func(f'{OBG}.call'), 'self._sema')]
+    A = _obg_attrs(ctx, m)
+    targets = [(GR, m.func(GR), None), (GE, m.func(GE), None), (f'{OBG}.call', m.func(f'{OBG}.call'), A['sema'])]
     par = m.parents()
     for qn, outer, sema in targets:
         if sema is None:
@@ -297,8 +377,16 @@ def _r1(ctx: Ctx, m: pf.Module) -> None:
                 sites = [par.get(u) for u in uses]
                 if uses and all(isinstance(s2, ast.Call) and s2.func is u and held_at(s2, m.enclosing_func(s2)) for s2, u in zip(sites, uses)):
                     held = True
-            if not held:
-                ctx.need(not by_hand, f'{qn}: `{pf.nsrc(by_hand[0]) if by_hand else ""}` acquires the semaphore by hand; whether `{pf.nsrc(c)}` runs while the slot is held is not decided')
+            if not held and by_hand:
+                verdict, where = _manual_hold(m, host, c, lambda v: _is_sema(host, v, sema, [f for f in [outer] + nested if f is not host]))
+                if verdict == 'leaky':
+                    ctx.bad('R1', f'{F}::{m.qualname(host)}::releases only a slot it holds',
+                            f'`await {sema}.acquire()` sits inside the `try` whose `finally` calls `{sema}.release()`: a task that is cancelled (cancel_on_error, a cancelled caller) while '
+                            f'it is still queued for a slot never got one, yet its finally releases one - asyncio.Semaphore is unbounded, so the value grows by one per such task and more '
+                            f'partial functions than the bound run at once from then on', m.path, where)
+                    continue
+                ctx.need(verdict == 'held', f'{qn}: `{pf.nsrc(by_hand[0])}` acquires the semaphore by hand; whether `{pf.nsrc(c)}` runs while the slot is held is not decided')
+                held = True
             ctx.check(held, 'R1', cons, f'the user function is invoked outside `async with {sema}`: it runs without holding a slot, so more than the bound run at once',
                       m.path, c.lineno)
 
@@ -308,21 +396,22 @@ def _r1(ctx: Ctx, m: pf.Module) -> None:
 # ------------------------------------------------------------------------------------------------
 
 
-def _is_parent_wait(a: ast.Await) -> bool:
+def _is_parent_wait(a: ast.Await, event: str) -> bool:
     n = pf.call_name(a)
-    return n in ('asyncio.gather', 'asyncio.wait') or (n or '').endswith('_done_event.wait')
+    return n in ('asyncio.gather', 'asyncio.wait') or n == f'{event}.wait'
 
 
 def _r2(ctx: Ctx, m: pf.Module) -> None:
-    sites = [(GR, m.func(GR), None), (GE, m.func(GE), None), (f'{OBG}.wait', m.func(f'{OBG}.wait'), 'self._sema'),
-             (f'{OBG}.__aexit__', m.func(f'{OBG}.__aexit__'), 'self._sema')]
+    A = _obg_attrs(ctx, m)
+    sites = [(GR, m.func(GR), None), (GE, m.func(GE), None), (f'{OBG}.wait', m.func(f'{OBG}.wait'), A['sema']),
+             (f'{OBG}.__aexit__', m.func(f'{OBG}.__aexit__'), A['sema'])]
     for qn, fn, sema in sites:
         if sema is None:
             sema = fn.args.args[0].arg
         by_hand = _manual(fn, lambda v: _is_sema(fn, v, sema), 'release')
         seen: Dict[str, int] = {}
         for a in _own_nodes(fn):
-            if isinstance(a, ast.Await) and _is_parent_wait(a):
+            if isinstance(a, ast.Await) and _is_parent_wait(a, A['event']):
                 txt = pf.nsrc(a)
                 seen[txt] = seen.get(txt, 0) + 1
                 cons = f'{F}::{qn}::{txt}' + (f'#{seen[txt]}' if seen[txt] > 1 else '')
@@ -466,8 +555,9 @@ def _r3(ctx: Ctx, m: pf.Module) -> Dict[str, str]:
         cons = f'{F}::{G2}::{nm}(...)' + (f'#{seen[nm]}' if seen[nm] > 1 else '')
         host = [n for n in cfg.nodes if n.ast is not None and any(x is c for e in pf.node_exprs(n) for x in ast.walk(e))]
         ctx.need(len(host) == 1, f'{G2}: call `{pf.nsrc(c)}` not located in the CFG')
-        ctx.need([pf.nsrc(_res(g2, x)) if not isinstance(x, ast.Starred) else pf.nsrc(x) for x in c.args] == [g2p[0], f'*{g2v}'] and all(k.arg is not None for k in c.keywords),
-                 f'{G2}: `{pf.nsrc(c)[:100]}` does not pass ({g2p[0]}, *{g2v}) in a recognised form')
+        # (which semaphore is handed on is the business of R7 / R8)
+        ctx.need(len(c.args) == 2 and not isinstance(c.args[0], ast.Starred) and pf.nsrc(c.args[1]) == f'*{g2v}' and all(k.arg is not None for k in c.keywords),
+                 f'{G2}: `{pf.nsrc(c)[:100]}` does not pass (<semaphore>, *{g2v}) in a recognised form')
         kw = {k.arg: pf.nsrc(pf.expand_locals(g2, k.value)) for k in c.keywords}
         ctx.need(set(kw) <= {FLAG}, f'{G2}: `{pf.nsrc(c)[:100]}` passes unknown keywords')
         if nm == GE:
@@ -475,7 +565,8 @@ def _r3(ctx: Ctx, m: pf.Module) -> Dict[str, str]:
             ctx.ok('R3', cons, 'forwards the semaphore and *pfs')
             continue
         const_false = kw.get(FLAG, 'False') == 'False'
-        if kw.get(FLAG) in (FLAG, f'bool({FLAG})') or (const_false and _every_path_forces(cfg, host[0], _sem_truthy([FLAG]), False, g2)):
+        if kw.get(FLAG) in (FLAG, f'bool({FLAG})') or (const_false and _every_path_forces(cfg, host[0], _sem_truthy([FLAG]), False, g2)) \
+                or (kw.get(FLAG) == 'True' and _every_path_forces(cfg, host[0], _sem_truthy([FLAG]), True, g2)):
             ctx.ok('R3', cons, 'forwards the semaphore, *pfs and cancel_on_error')
         elif const_false or kw.get(FLAG) == 'True' or kw.get(FLAG) == f'not {FLAG}':
             ctx.bad('R3', cons, f'`{pf.nsrc(c)}` does not forward ({g2p[0]}, *{g2v}) and the cancel_on_error flag unchanged: the callee sees '
@@ -684,6 +775,17 @@ def _r4(ctx: Ctx, m: pf.Module, tasks_name: Dict[str, str]) -> None:
     around = [t for t in tries if any(is_gather(a) for s in t.body for a in ast.walk(s))]
     gather_in_try = [t for t in around if t.finalbody]
     if not gather_in_try:
+        # the clean-up written as an exception handler: it must see everything that can end the gather, a cancellation of the caller included
+        for t in around:
+            for h in t.handlers:
+                if any(isinstance(c, ast.Call) and isinstance(c.func, ast.Attribute) and c.func.attr == 'cancel' for s2 in h.body for c in ast.walk(s2)):
+                    ts = ['BaseException'] if h.type is None else [pf.dotted(x) for x in (h.type.elts if isinstance(h.type, ast.Tuple) else [h.type])]
+                    if all(x is not None for x in ts) and 'BaseException' not in ts and not any((x or '').endswith('CancelledError') for x in ts) and len(t.handlers) == 1:
+                        ctx.bad('R4', consf + '::runs on error', f'the tasks are cancelled and awaited in `except {", ".join(str(x) for x in ts)}` only: asyncio.CancelledError (a BaseException) '
+                                f'thrown into `await asyncio.gather(...)` when the caller itself is cancelled - e.g. by an enclosing cancel_on_error gather or OnlineBoundedGather2 shutdown - '
+                                f'bypasses the handler, so every task keeps running after bounded_gather2 has been left', m.path, h.lineno)
+                        af.blocked(ctx, 'R4', 'R4')
+                        return
         cancels_somewhere = any(isinstance(c, ast.Call) and isinstance(c.func, ast.Attribute) and c.func.attr == 'cancel' for c in ast.walk(gr))
         ctx.need(not around and not cancels_somewhere, f'{GR}: the gather is not inside a try/finally, but the function handles exceptions / cancels tasks in a form that is not recognised')
         ctx.bad('R4', consf, 'no try/finally encloses the gather: with cancel_on_error=True the unfinished tasks are neither cancelled nor awaited when one fails',
@@ -730,7 +832,7 @@ def _r4(ctx: Ctx, m: pf.Module, tasks_name: Dict[str, str]) -> None:
     var = loop.target.id  # type: ignore[union-attr]
     # b1: reached on the exceptional path
     ctx.need(bool(en) or not any(t.kind == 'test' and cfg.dominated_by(H, lambda n, t=t: n is t) for t in cfg.nodes), f'{GR}: the in-flight exception is not read through sys.exc_info() in the finally block')
-    esem = _sem_truthy(sorted(en))
+    esem = _sem_truthy(sorted(en) + ['sys.exc_info()[1]'])
     ok_reach = True
     why = ''
     for t in cfg.nodes:
@@ -917,8 +1019,8 @@ def _r10(ctx: Ctx, m: pf.Module, tasks_name: Dict[str, str]) -> None:
 
 
 def _r5(ctx: Ctx, m: pf.Module) -> None:
-    PEND = 'self._pending'
-    EXC = 'self._exception'
+    A = _obg_attrs(ctx, m)
+    PEND, EXC, EVT = A['pending'], A['exc'], A['event']
     pend_nonempty = _sem_nonempty(PEND)
     pend_none = _sem_none(PEND)
     exc_set = _sem_truthy([EXC])
@@ -932,6 +1034,7 @@ def _r5(ctx: Ctx, m: pf.Module) -> None:
     whiles = [n for n in _own_nodes(ex) if isinstance(n, ast.While)]
     loops = [n for n in whiles if mentions(ex, n.test, PEND)]
     cons = f'{F}::{OBG}.__aexit__::leaves only when nothing is pending'
+    no_loop = not loops
     if not loops:
         ifs = [n for n in _own_nodes(ex) if isinstance(n, ast.If) and mentions(ex, n.test, PEND)]
         ctx.need(bool(ifs) and not whiles and not any(isinstance(n, (ast.For, ast.AsyncFor)) for n in _own_nodes(ex)),
@@ -960,11 +1063,15 @@ def _r5(ctx: Ctx, m: pf.Module) -> None:
                   if leak is not None else f'`{late[0].text() if late else ""}` suspends after the last pending-test: new tasks can be submitted before __aexit__ returns',
                   m.path, ex.lineno)
         # body of the loop waits for the event
-        waits = [a for s in loops[0].body for a in ast.walk(s) if isinstance(a, ast.Await) and (pf.call_name(a) or '').endswith('_done_event.wait')]
+        waits = [a for s in loops[0].body for a in ast.walk(s) if isinstance(a, ast.Await) and pf.call_name(a) == f'{EVT}.wait']
         if not waits:
             ctx.need(not any(isinstance(a, ast.Await) for s2 in loops[0].body for a in ast.walk(s2)), f'{OBG}.__aexit__: the pending loop suspends, but not in `await self._done_event.wait()` (not recognised)')
         ctx.check(bool(waits), 'R5', f'{F}::{OBG}.__aexit__::waits for the event', f'the `while {PEND}` loop does not await _done_event.wait(): it spins without yielding',
                   m.path, loops[0].lineno)
+    # without an asyncio.Event the completion protocol is a different one: only a reported violation above lets the run end (exit 1); else not analysed
+    if EVT is None:
+        ctx.need(no_loop, f'{OBG}: no asyncio.Event attribute - the way completion is signalled is not recognised')
+        return
     # raises the stored exception at the end
     raises = [n for n in cfg.nodes if n.kind == 'raise' and isinstance(n.ast, ast.Raise) and n.ast.exc is not None and pf.nsrc(_res(ex, n.ast.exc)) == EXC]
     consr = f'{F}::{OBG}.__aexit__::raises the first exception'
@@ -1020,7 +1127,7 @@ def _r5(ctx: Ctx, m: pf.Module) -> None:
         return any(isinstance(c.func, ast.Attribute) and c.func.attr in attrs and pf.nsrc(c.func.value) == PEND for c in pf.node_calls(n))
     reg = af.stmt_nodes(c3, lambda n: n.kind == 'stmt' and isinstance(n.ast, ast.Assign) and any(isinstance(t, ast.Subscript) and pf.nsrc(t.value) == PEND for t in n.ast.targets))
     reg_other = af.stmt_nodes(c3, lambda n: pend_mutation(n, ('update', 'setdefault', '__setitem__')) or (isinstance(n.ast, (ast.Assign, ast.AugAssign)) and af.writes_attr(n, PEND)))
-    clr = af.stmt_nodes(c3, lambda n: any(pf.dotted(c.func) == 'self._done_event.clear' for c in pf.node_calls(n)))
+    clr = af.stmt_nodes(c3, lambda n: any(pf.dotted(c.func) == f'{EVT}.clear' for c in pf.node_calls(n)))
     rets = [n for n in c3.nodes if n.kind == 'return' and n.id in c3.reachable_from(c3.entry)]
     ctx.need(not reg_other and len(reg) <= 1 and len(rets) >= 1, f'{OBG}.call: {PEND} is written in a form that is not recognised')
     ok = len(reg) == 1 and all(c3.dominated_by(r, lambda n: n is reg[0]) for r in rets)
@@ -1059,12 +1166,12 @@ def _r5(ctx: Ctx, m: pf.Module) -> None:
         return a.kind == 'test' and lab in ('T', 'F') and (_forces(_xt(rc, a.ast), lab, pend_none) is True or _forces(_xt(rc, a.ast), lab, pend_nonempty) is False)
     leak = c4.path_avoiding(c4.entry, lambda n: n is c4.exit, lambda n: any(n is d for d in dels), edge_ok=lambda a, b, lab: not gone_edge(a, lab))
     if leak is not None:
-        tests_on = [n for n in leak if n.kind == 'test' and mentions(rc, n.ast, PEND)]
+        tests_on = [n for n, lab in _path_tests(leak) if mentions(rc, n.ast, PEND) and _forces(_xt(rc, n.ast), lab, pend_none) is None and _forces(_xt(rc, n.ast), lab, pend_nonempty) is None]
         ctx.need(not tests_on, f'{OBG}.call.run_and_cleanup: the test `{tests_on[0].text() if tests_on else ""}` on the way out is not understood')
     ctx.check(bool(dels) and leak is None, 'R5', f'{F}::{OBG}.call.run_and_cleanup::deregisters',
               'a finished background task can return without removing itself from self._pending (and the pool is not shut down): __aexit__ waits for ever'
               + (f' (via `{leak[-2].text()}`)' if leak and len(leak) > 1 else ''), m.path, rc.lineno)
-    sets = af.stmt_nodes(c4, lambda n: any(pf.dotted(c.func) == 'self._done_event.set' for c in pf.node_calls(n)))
+    sets = af.stmt_nodes(c4, lambda n: any(pf.dotted(c.func) == f'{EVT}.set' for c in pf.node_calls(n)))
     emp = [(t, lab) for t in c4.nodes if t.kind == 'test' and t.id in c4.reachable_from(c4.entry) for lab in ('T', 'F')
            if _forces(_xt(rc, t.ast), lab, pend_nonempty) is False and _forces(_xt(rc, t.ast), lab, pend_none) is not True
            and c4.dominated_by(t, lambda n: any(n is d for d in dels))]
@@ -1120,7 +1227,7 @@ def _r5(ctx: Ctx, m: pf.Module) -> None:
     Hn = [n for n in c5.nodes if n.kind == 'loop' and n.ast is lp][0]
     nones = af.stmt_nodes(c5, lambda n: isinstance(n.ast, ast.Assign) and pf.nsrc(n.ast.targets[0]) == PEND and pf.nsrc(n.ast.value) == 'None')
     other_w = af.stmt_nodes(c5, lambda n: af.writes_attr(n, PEND) and not any(n is x for x in nones))
-    sets = af.stmt_nodes(c5, lambda n: any(pf.dotted(c.func) == 'self._done_event.set' for c in pf.node_calls(n)))
+    sets = af.stmt_nodes(c5, lambda n: any(pf.dotted(c.func) == f'{EVT}.set' for c in pf.node_calls(n)))
     ctx.need(not other_w, f'{OBG}._shutdown: `{other_w[0].text() if other_w else ""}` writes {PEND} in a form that is not recognised')
     if not sets:
         ctx.need(not any(isinstance(c, ast.Call) and isinstance(c.func, ast.Attribute) and c.func.attr == 'set' for c in ast.walk(sd)), f'{OBG}._shutdown: an event is set in a form that is not recognised')
